@@ -3,7 +3,7 @@ CONSTANTS
   KeySeq <- KeySeqC
   Vals <- ValsL
   Acts <- ActsC44
-  MaxOps = 9
+  MaxOps = 8
   DiskInits <- DiskEmpty6
   Contracts <- ContractsC
   Track = TRUE
